@@ -776,4 +776,96 @@ def ctorChecked (c : ClsSpec) (L : Layout) (e : Endian) (bs : List Byte) (glob :
 def diagnose (c : ClsSpec) (L : Layout) (e : Endian) (bs : List Byte) : List Report :=
   (checkOnlyBytes c L e bs).filter (fun r => r.msg != .none)
 
+/-! ### from_header: the values the setters write, computed from the SOURCE header (analyze.py 394-405)
+
+        obj.set_data_dtype(header.get_data_dtype())    -- get: analyze.py 535-542, set: 544-583
+        obj.set_data_shape(header.get_data_shape())    -- get: 585-606 (`getShape`), set: 608-634 (`setShapeDim`, `setShapePix`)
+        obj.set_zooms(header.get_zooms())              -- get: 664-690, set: 692-706
+    `fromHeaderG?` is the `g` of `fromHeaderVals`; `none` = `HeaderDataError` (datatype not supported by the
+    target, a dimension that does not fit the target's `dim` item type, a negative zoom).  `copied` = the target
+    record after the copy loop (its pixdim is NumPy's cast of the source pixdim).  Not modelled: the
+    NIfTI-1 freesurfer shape hacks (nifti1.py 947-1064: dim[1:4] = (-1,1,1) / (27307,1,6) on the source side;
+    on the target side they need a dimension that does not fit int16 and are excluded by the fit test). -/
+
+/-- value representable in a `w`-byte signed item (`dims[1:ndims+1] = shape; np.all(dims[1:ndims+1] == shape)`) -/
+def fitsInt (w : Nat) (x : Int) : Bool :=
+  decide (-((256 ^ w : Nat) : Int) ≤ 2 * x ∧ 2 * x < ((256 ^ w : Nat) : Int))
+
+def convDtype? (ts td : List DtCode) (code : Int) : Option (Int × Int) :=
+  match dtFind ts code with
+  | none => none
+  | some r => if r.isz = 0 then none
+              else (dtCodeOf td r.kind r.isz).map (fun k => (k, ((8 * r.isz : Nat) : Int)))
+
+def srcZooms (F : FloatFmt) (dim : List Int) (cp : List Nat) : List Nat :=
+  if dim.getD 0 0 = 0 then [F.one] else getZooms (getShape dim).length cp
+
+def fromHeaderPixG (F : FloatFmt) (dim : List Int) (cp : List Nat) : List Nat :=
+  setZoomsPix (getShape dim).length (srcZooms F dim cp) (setShapePix F (getShape dim).length cp)
+
+def padTo (n : Nat) (l : List Nat) : List Nat := l ++ List.replicate (n - l.length) 0
+
+def fromHeaderG? (cs cd : ClsSpec) (Ls Ld : Layout) (src copied : List (List Nat)) : Option (String → List Nat) :=
+  let dim := getInts Ls src "dim"
+  let shape := getShape dim
+  match convDtype? cs.dtTable cd.dtTable ((getInts Ls src "datatype").getD 0 0) with
+  | none => none
+  | some (k, bp) =>
+    if !(shape.all (fitsInt (fieldW Ld "dim"))) then none
+    else if dim.getD 0 0 ≠ 0 ∧ (getZooms shape.length (getRaw Ls src "pixdim")).any cs.pixFmt.isNeg then none
+    else some (fun n =>
+      if n = "datatype" then [ofInt (fieldW Ld n) k]
+      else if n = "bitpix" then [ofInt (fieldW Ld n) bp]
+      else if n = "dim" then (setShapeDim shape).map (ofInt (fieldW Ld n))
+      else if n = "pixdim" then fromHeaderPixG cd.pixFmt dim (getRaw Ld copied n)
+      else if n = "magic" then
+        padTo (getRaw Ld copied n).length (if cd.isSingle then cd.singleMagic else cd.pairMagic)
+      else getRaw Ld copied n)
+
+/-! ### objects and buffers: can `copy()` alias?
+
+    `_structarr` is a NumPy array object; two header objects could view the same memory.  State = buffers
+    + objects that refer to a buffer by id; writes through an object land in the buffer it views. -/
+
+/-- an object: its byte-order label and the id of the buffer its `_structarr` views -/
+structure ObjRef where
+  e : Endian
+  buf : Nat
+  deriving DecidableEq, Repr, Inhabited
+
+/-- buffers (`_structarr` memory, as field values) and objects referring to them; two objects MAY share a
+    buffer — whether `copy()` does is a property of the code, not of this state space -/
+structure World where
+  bufs : List (List (List Nat))
+  objs : List ObjRef
+  deriving DecidableEq, Repr, Inhabited
+
+def World.wf (w : World) : Prop := ∀ o ∈ w.objs, o.buf < w.bufs.length
+
+/-- the header object `i` denotes -/
+def World.hdr (w : World) (i : Nat) : Hdr :=
+  ⟨(w.objs.getD i default).e, w.bufs.getD (w.objs.getD i default).buf []⟩
+
+/-- `copy()` (wrapstruct.py 261-272): `self.__class__(self.binaryblock, self.endianness, check=False)`;
+    `binaryblock` is `tobytes()` (new bytes) and the constructor stores `wstr.copy()` (wrapstruct.py 170):
+    a NEW buffer holding the parsed bytes, and a new object viewing it -/
+def World.copyObj (L : Layout) (w : World) (i : Nat) : World × Nat :=
+  let h := copy L (w.hdr i)
+  (⟨w.bufs ++ [h.vals], w.objs ++ [⟨h.e, w.bufs.length⟩]⟩, w.objs.length)
+
+/-- the ALIASING variant (not the code): a `copy()` that hands out a new object viewing the SAME
+    `_structarr` buffer -/
+def World.copyObjAlias (w : World) (i : Nat) : World × Nat :=
+  (⟨w.bufs, w.objs ++ [w.objs.getD i default]⟩, w.objs.length)
+
+/-- `obj_i[name] = v`: a write through object `i` lands in the buffer it views -/
+def World.setObj (L : Layout) (w : World) (i : Nat) (name : String) (v : List Nat) : World :=
+  if i < w.objs.length ∧ (w.objs.getD i default).buf < w.bufs.length then
+    ⟨w.bufs.set (w.objs.getD i default).buf
+      ((Hdr.setField L ⟨.le, w.bufs.getD (w.objs.getD i default).buf []⟩ name v).vals), w.objs⟩
+  else w
+
+def World.setMany (L : Layout) (w : World) (i : Nat) (ws : List (String × List Nat)) : World :=
+  ws.foldl (fun w x => w.setObj L i x.1 x.2) w
+
 end Nb.C10
